@@ -904,8 +904,10 @@ def run(project: Project, rep, tier: str):
         "warns and then restricts the square matrix with the same mask on rows and columns (accepted idioms DG[m][:, m], "
         "DG[np.ix_(m, m)], DG[m, :][:, m]). GH-SYM: writes only at the strict upper triangle, lower triangle copied from "
         "the own transpose with k=−1, pair call returns [0,1]. GH-INT: ascending signed ladder with <=. GH-DET: call-graph "
-        "reachability — no RNG call from find_lb. Declined: that the bounds bracket the distance (C05); relabelling "
-        "invariance.")
+        "reachability — no RNG call from find_lb. GH-MAXD: bound provenance — on every call path to the histogram builder "
+        "(`zeros((n, b+1))` indexed by `b − distance`) the bound expands to max(max(DX), max(DY)) and the matrix to DX, DY or "
+        "a part of one of them, so no count wraps round to a wrong column (a necessary condition of 'valid brackets'). "
+        "Declined: that the bounds bracket the distance (C05); relabelling invariance.")
     fi, _ = check_coerce(project, rep)
     check_lcc(project, rep, fi)
     # GH-RESULT evaluates the entry point itself; GH-SYM reads the shapes it knows and gives way when the result was decided
@@ -926,7 +928,12 @@ def run(project: Project, rep, tier: str):
         sym_floor = 5
     check_int(project, rep)
     check_det(project, rep)
-    for rn, n in (("GH-COERCE", 3), ("GH-LCC", 2), ("GH-SYM", sym_floor), ("GH-INT", 3), ("GH-DET", 2)):
+    # GH-MAXD: "valid brackets" needs the distance histograms of the lower-bound search to be laid out with a bound that covers
+    # both spaces (a count at a negative column wraps round silently) — bound provenance over the call paths (bound_rule)
+    from . import bound_rule
+    bound_rule.positive_examples()
+    bound_rule.check(project, rep, "GH-MAXD")
+    for rn, n in (("GH-COERCE", 3), ("GH-LCC", 2), ("GH-SYM", sym_floor), ("GH-INT", 3), ("GH-DET", 2), ("GH-MAXD", 4)):
         rep.floor(rn, n)
     for t in ("scipy.sparse.csgraph.shortest_path", "scipy.sparse.csgraph.connected_components", "numpy.tril_indices"):
         rep.trust(t)
